@@ -5,6 +5,6 @@ CONSTANTS
   EObjs = {1, 2, 3, 4, 5, 6, 7, 8, 9, 10, 11, 12, 13, 14, 15, 16}
   Forget = {}
 INVARIANTS TypeOK GhostIsDef ValidExact CacheSound
-PROPERTIES RerootKeeps EdgeObjectStays RaiseKeeps
+PROPERTIES RerootKeeps OutGroupKeeps EdgeObjectStays RaiseKeeps
 POSTCONDITION TraceAccepted
 CHECK_DEADLOCK FALSE
